@@ -497,7 +497,8 @@ def engine_p(kw, dump_dir, per_file=800):
     entries = [seen[k] for k in sorted(seen)]
     if not entries:
         return {"skipped": "no dumped outputs"}, [], 0
-    chunks = [entries[i:i + per_file] for i in range(0, len(entries), per_file)]
+    parse_entries = [e for e in entries if not e.get("attrs_only")]
+    chunks = [parse_entries[i:i + per_file] for i in range(0, len(parse_entries), per_file)]
 
     def body(e):
         inp = (f"#[derive_ex({e['attr']})]\n{e['item']}" if e["mode"] == "attr" else f"#[derive(Ex)]\n{e['item']}")
@@ -562,7 +563,7 @@ def engine_p(kw, dump_dir, per_file=800):
     for key, items in sorted(groups.items()):
         items.sort(key=lambda x: len(x[2]))
         e, msg, disp = items[0]
-        req = {"mode": e["mode"], "attr": e["attr"], "item": e["item"]}
+        req = {"mode": e["mode"], "attr": e.get("orig_attr", e["attr"]), "item": e.get("orig_item", e["item"])}
         p = os.path.join(kw["replays"], "C16-rustc-illformed-" + hashlib.sha1(disp.encode()).hexdigest()[:12] + ".json")
         cls = f"illformed for rustc (syn accepts the output, rustc's parser does not): {key}"
         json.dump({"property": "C16", "class": cls,
@@ -574,8 +575,56 @@ def engine_p(kw, dump_dir, per_file=800):
         classes.append({"class": cls, "kind": "illformed-rustc", "occurrences": len(items), "replay": p,
                         "reproducible": True, "input": disp, "detail": msg,
                         "known": key[6:] if key.startswith("known:") else None})
+    # built-in attributes the expander itself wrote or rewrote: rustc validates their arguments
+    # beyond what its item parser checks (and only in live code), so each distinct one is put on a
+    # trivial live item of its own; a code-less error there is the attribute's own fault
+    probe = {}
+    for e in entries:
+        if e["id"] in bad_in_ids:
+            continue
+        for a in e.get("new_attrs", []) or []:
+            if a not in probe or len(e["item"]) < len(probe[a]["item"]):
+                probe[a] = e
+    attrs = sorted(probe)
+    bad_attrs = []
+    if attrs:
+        lines = ["#![allow(warnings)]"]
+        owner = {}
+        for k, a in enumerate(attrs):
+            lines.append(f"mod a{k} {{")
+            owner[len(lines) + 1] = a
+            lines.append(a.replace("\n", " "))
+            lines.append("pub struct P; }")
+        f = os.path.join(d, "attrs.rs")
+        open(f, "w").write("\n".join(lines) + "\n")
+        try:
+            r = subprocess.run([rustc, "--edition", "2021", "--crate-type", "lib", "--emit=metadata", "--out-dir", d, f],
+                               env={"PATH": "/usr/bin:/bin"}, capture_output=True, text=True, timeout=RUSTC_TIMEOUT_S)
+        except subprocess.TimeoutExpired:
+            raise HarnessError(f"engine P: rustc did not finish {f}")
+        for m in re.finditer(r"^error: ([^\n]*)\n\s*--> [^:\n]+:(\d+):\d+", r.stderr, re.M):
+            msg, ln = m.group(1), int(m.group(2))
+            if re.search(r"cannot find|aborting due to|unresolved|can only be applied|should be applied|not allowed|unused", msg):
+                continue
+            a = owner.get(ln)
+            if a:
+                bad_attrs.append((a, msg))
+    for a, msg in bad_attrs:
+        e = probe[a]
+        disp = (f"#[derive_ex({e['attr']})] {e['item']}" if e["mode"] == "attr" else f"#[derive(Ex)] {e['item']}")
+        req = {"mode": e["mode"], "attr": e.get("orig_attr", e["attr"]), "item": e.get("orig_item", e["item"])}
+        pth = os.path.join(kw["replays"], "C16-rustc-attribute-" + hashlib.sha1((a + disp).encode()).hexdigest()[:12] + ".json")
+        cls = "illformed for rustc (a built-in attribute written or rewritten by the expander is rejected): " + re.sub(r"`[^`]*`", "`_`", msg)
+        json.dump({"property": "C16", "class": cls, "kind": "illformed-rustc", "engine": "P", "detail": f"{msg} | attribute: {a}",
+                   "root_seed": kw["seed"], "session_idx": 0, "original_step": 0, "original_steps_in_session": 1,
+                   "minimisation_trials": 0, "reproducible": True, "input": disp, "output_a": e["out"],
+                   "plan": {"reqs": [req], "steps": [{"req": 0, "thread": "main", "policy": {"kind": "keep"}}]}},
+                  open(pth, "w"), indent=1)
+        classes.append({"class": cls, "kind": "illformed-rustc", "occurrences": 1, "replay": pth, "reproducible": True,
+                        "input": disp, "detail": f"{msg} | attribute: {a}", "known": None})
     shutil.rmtree(d, ignore_errors=True)
-    info = {"pairs_parsed": len(entries), "rustc_files": len(chunks),
+    info = {"pairs_parsed": len(entries), "rustc_files": len(chunks), "builtin_attributes_probed": len(attrs),
+            "builtin_attributes_rejected": len(bad_attrs),
             "inputs_rustc_rejects_but_syn_accepts": len(bad_in),
             "examples_outside_premise": [(f"#[derive_ex({e['attr']})] {e['item']}"[:200], m) for e, m in bad_in[:5]],
             "outputs_rustc_rejects": len(bad_out), "wall_s": round(time.time() - t0, 1)}
